@@ -4,6 +4,7 @@ package main
 // passive form. Loops are cut at their invariants; calls use callee contracts.
 
 import (
+	"os"
 	"fmt"
 	"go/token"
 	"go/types"
@@ -95,6 +96,13 @@ type gen struct {
 	inlineDepth int
 	isInline bool
 	ghostSetsApplied int
+	// freshRefs: reference terms known (syntactically) to denote objects allocated during this execution;
+	// writtenOld: components with a write that is not known to hit such an object only
+	freshRefs  map[string]bool
+	freshWrite bool
+	writtenOld map[string]bool
+	writtenOldB map[*ssa.BasicBlock]map[string]bool // the same per block (loops)
+	dryOldB     map[*ssa.BasicBlock]map[string]bool // from the dry pass of this function
 	rets     []inlineRet
 	fnKey    string
 	closureMap map[string]*ssa.MakeClosure
@@ -180,8 +188,25 @@ func (g *gen) havocAll(st State) {
 	g.havocComp(st, epochKey)
 }
 
+var debugOld = os.Getenv("GOVC_DEBUG") == "old"
+
 func (g *gen) stSet(st State, comp, term string) {
 	st[comp] = term
+	if !g.freshWrite && comp != "alloctop" {
+		if debugOld && g.dry && !g.writtenOld[comp] {
+			fmt.Fprintf(os.Stderr, "DEBUG old-write %s in %s (block %v)\n", comp, g.fnKey, g.curBlock)
+		}
+		g.writtenOld[comp] = true
+		if g.curBlock != nil {
+			if g.writtenOldB == nil {
+				g.writtenOldB = map[*ssa.BasicBlock]map[string]bool{}
+			}
+			if g.writtenOldB[g.curBlock] == nil {
+				g.writtenOldB[g.curBlock] = map[string]bool{}
+			}
+			g.writtenOldB[g.curBlock][comp] = true
+		}
+	}
 	if g.curBlock != nil {
 		w := g.written[g.curBlock]
 		if w == nil {
@@ -248,7 +273,10 @@ func (g *gen) locWrite(st State, l *Loc, v string) {
 	// name the new component value to keep terms small
 	n := g.ctx.fresh(l.Comp, g.ctx.compSort[l.Comp])
 	g.ctx.assume("(= " + n + " " + nv + ")")
+	saved := g.freshWrite
+	g.freshWrite = saved || (len(l.Idx) > 0 && g.freshRefs[l.Idx[0]])
 	g.stSet(st, l.Comp, n)
+	g.freshWrite = saved
 }
 
 func (g *gen) define(prefix, sort, term string) string {
